@@ -109,6 +109,8 @@ const ATTR_NAMES: &[&str] = &[
     "innerHTML", "xlink:href", "a:b", "modelValue", "_", "$", "is", "v1", "v_size", "v$", "v",
     // names that differ from another one only in case
     "Title", "onclick", "ID", "Class",
+    // namespaced names whose namespace part is spelled like another feature
+    "on:click", "nativeOn:focus", "class:x", "key:k", "ref:r",
 ];
 const DIR_NAMES: &[&str] = &[
     "v-show", "v-foo", "v-foo-bar", "vFoo", "vFooBar", "v-html", "v-text", "v-model",
@@ -963,7 +965,19 @@ impl<'a, 'b> G<'a, 'b> {
                 };
                 format!("({a})[{i}]")
             }
-            8 => format!("[({}), ({})?]", self.ts_type(depth + 1), self.ts_type(depth + 1)),
+            8 => {
+                let t = format!("[({}), ({})?]", self.ts_type(depth + 1), self.ts_type(depth + 1));
+                // indices at and around the end of the tuple
+                match self.c.pick(8) {
+                    0 => format!("{t}[2]"),
+                    1 => format!("{t}[1]"),
+                    2 => format!("{t}[3]"),
+                    3 => "[][0]".to_string(),
+                    4 => format!("{t}[-1]"),
+                    5 => format!("{t}[1.5]"),
+                    _ => t,
+                }
+            }
             9 => {
                 self.f.unusual("unsupported-type");
                 self.c
@@ -1031,9 +1045,29 @@ impl<'a, 'b> G<'a, 'b> {
         };
         let name = self.fresh("Comp");
         let (p1, p2) = if self.k.tsx {
-            let t = self.ts_type(0);
-            let d = match self.c.pick(7) {
+            let mut t = self.ts_type(0);
+            let d = match self.c.pick(8) {
                 0 => String::new(),
+                // `this` / `super` in the parameter list or the body of a member: such a member
+                // cannot be turned into a free-standing function
+                7 => {
+                    self.f.ctx("this-or-super-in-prop-defaults");
+                    if self.c.chance(2, 3) {
+                        // the members named below are props
+                        t = "{ k1?: string | (() => void); n?: number; m1?: () => void }".to_string();
+                    }
+                    self.c
+                        .choose(&[
+                            " = { k1(v = super.toString()) { return v; }, m1() {} }",
+                            " = { k1() { return super.toString(); } }",
+                            " = { get k1() { return this.n; }, n: 1 }",
+                            " = { k1(v = this) { return v; } }",
+                            " = { async k1([a] = [super.x]) {} }",
+                            " = { k1() { return () => super.x; } }",
+                            " = { get k1() { return { [this.n]: 1 }; } }",
+                        ])
+                        .to_string()
+                }
                 1 => " = { k1: 1, n: f() }".to_string(),
                 2 | 6 => " = p".to_string(),
                 3 => " = { ...p, [x]: 1, get k1() { return 1; }, m1() {}, async am() {} }".to_string(),
@@ -1092,6 +1126,21 @@ impl<'a, 'b> G<'a, 'b> {
                 1 => format!("export const {name} = {callee}(...xs{});", self.c.choose(&["", ", o", ", o, o"])),
                 _ => format!("export const {name} = {callee}(o, o, o);"),
             };
+        }
+        // redundant parentheses (the printer drops them: the output must already be final)
+        let (setup, callee) = if self.c.chance(1, 6) {
+            self.f.ctx("defineComponent-redundant-parentheses");
+            match self.c.pick(3) {
+                0 => (format!("({setup})"), callee.to_string()),
+                1 => (setup, format!("({callee})")),
+                _ => (format!("(({setup}))"), format!("({callee})")),
+            }
+        } else {
+            (setup, callee.to_string())
+        };
+        if self.c.chance(1, 12) {
+            self.f.ctx("defineComponent-redundant-parentheses");
+            return format!("export const {name} = ({callee}({setup}{opts}));");
         }
         match self.c.pick(4) {
             0 => format!("export const {name} = {callee}({setup}{opts});"),
